@@ -52,6 +52,22 @@ def redisplay_failure(r):
     return None
 
 
+_LOGERR = re.compile(r"--- Logging error ---\n.*?\nArguments: [^\n]*\n", re.S)
+
+
+def without_logging_error(r):
+    """copy of a cell observation with the blocks logging.Handler.handleError printed removed from stderr"""
+    err = r.get("stderr") or ""
+    if "self.handleError(record)\nMessage: " not in err:
+        return r, False
+    r2 = dict(r)
+    err = _LOGERR.sub("", err)
+    if "self.handleError(record)\nMessage: " in err:       # a block whose first line was cut off by the tail limit
+        err = re.sub(r"\A.*?self\.handleError\(record\)\nMessage: [^\n]*\nArguments: [^\n]*\n", "", err, flags=re.S)
+    r2["stderr"] = err
+    return r2, True
+
+
 def pyflyby_in_output(r):
     txt = (r.get("stdout") or "") + (r.get("stderr") or "")
     return MARK in txt or "pyflyby/_" in txt
@@ -98,7 +114,9 @@ class C13(Prop):
     rule = ("fault plans on a fresh real IPython 9 shell per plan: 4 cells from a generator of 20 cell kinds (known-name reads, "
             "from-imports, pinfo, %prun, %run, %debug, multi-line defs, syntax errors, user exceptions, global/attribute "
             "completions) x up to 3 faults, each = (site in {db_load, parse, scan, import_exec, complete} x class in "
-            "{Exception, ValueError, OSError, SyntaxError, AttributeError, RecursionError} x n-th call in 1..3 x once|persistent), "
+            "{Exception, ValueError, OSError, SyntaxError, AttributeError, RecursionError} x message shape in {marker, '', no args, "
+            "multi-line, blank first line, __str__ raises} x n-th call in 1..3 x once|persistent), %run of scripts whose paths "
+            "contain blanks, parentheses, non-ASCII, quotes, '#', '+', '~', "
             "x log level INFO|ERROR x database good|malformed|unreadable; every plan is compared with a pyflyby-free run of the "
             "same cells in which the names pyflyby imported successfully are pre-bound; exhaustive part: every site x class on "
             "a fixed 4-cell script; non-trivial when at least one fault fired or the database is bad")
@@ -158,6 +176,22 @@ class C13(Prop):
                         for persist in ((False, True) if tier == "thorough" else (True,)):
                             out.append(dict(config="terminal", loglevel="ERROR", db="good", cells=cells,
                                             faults=[dict(site=site, exc=exc, nth=nth, persist=persist)]))
+        # every message shape of the injected exception at every site (empty, no args, multi-line, blank first line,
+        # __str__ that raises)
+        cells = [gen_c13.make_cell(k, 7 + i, 7 + i, self._mods()) for i, k in enumerate(self.FIXED_SCRIPT)]
+        for site in gen_c13.SITES:
+            for msg in gen_c13.MSGS[1:]:
+                for exc in (("ValueError", "KeyError") if tier == "thorough" else ("ValueError",)):
+                    out.append(dict(config="terminal", loglevel="ERROR", db="good", cells=cells,
+                                    faults=[dict(site=site, exc=exc, nth=1, persist=True, msg=msg)]))
+        # %run of scripts under unusual paths, healthy importer and one fault
+        n = len(gen_c14.ODD_PATHS)
+        for lo in range(0, n, 3):
+            odd = [gen_c13.make_cell("run_odd", j, j, self._mods()) for j in range(lo, min(n, lo + 3))]
+            odd.append(gen_c13.make_cell("run_odd_needs", lo, lo, self._mods()))
+            out.append(dict(config="terminal", loglevel="ERROR", db="good", cells=odd, faults=[]))
+            out.append(dict(config="terminal", loglevel="INFO", db="good", cells=odd,
+                            faults=[dict(site="parse", exc="OSError", nth=2, persist=False)]))
         for c in load_corpus(self.id):
             self._plan(c)
         return [self._plan(c) for c in out]
@@ -244,6 +278,10 @@ class C13(Prop):
             withdrawn_at = -1
             self._check_withdrawn(F, None, pf["enable"])
         for i, (a, b) in enumerate(zip(pf["cells"], ref["cells"])):
+            a, logerr = without_logging_error(a)
+            if logerr:
+                F("pyflyby's logger printed a 'Logging error' traceback", i,
+                  msgs=sorted({f.get("msg", "marker") for f in case.get("faults", [])}))
             fired = [t for t in a["trace"] if t[2]]
             internal = [t for t in fired if t[1] is not None and not by_design_local(t[0], t[2])]
             reported = any("Disabling pyflyby auto importer" in l for l in a["pf_log"])
@@ -363,6 +401,7 @@ class C13(Prop):
         if (imp["state"], imp["errored"], imp["ndisablers"]) != (m["state"], m["errored"], m["ndis"]):
             return f"after enable: impl={imp} model={(m['state'], m['errored'], m['ndis'])}"
         for i, a in enumerate(pf["cells"]):
+            a, _ = without_logging_error(a)
             inv = self._invocations(a)
             seg = steps[pos + 1: pos + 1 + len(inv)]
             pos += len(inv)
@@ -385,7 +424,8 @@ class C13(Prop):
             m_esc = any(s["delivered"] == "exception" for s in seg)
             o_esc = bool(a["escaped"]) or any(e and MARK in e[1] for e in (a.get("err"), a.get("err_before"))) \
                 or (MARK in (a["stdout"] + a["stderr"])) or redisplay_failure(a) == "pt_cli" \
-                or bool(a.get("err") and a["err"] != obs["ref"]["cells"][i].get("err") and "While parsing" in a["err"][1])
+                or bool(a.get("err") and a["err"] != obs["ref"]["cells"][i].get("err")
+                        and ("While parsing" in a["err"][1] or any(t[2] for t in a["trace"])))
             if redisplay_failure(a) == "wedged":
                 continue      # the logger's HookCtx state is not part of the model (see notes/C13.md)
             if m_esc != o_esc:
@@ -456,7 +496,7 @@ class C13(Prop):
     @staticmethod
     def fam_run_parse(case, failure):
         """%run: an internal error while parsing the script for auto-import is logged, not treated as an internal error"""
-        if failure.get("ck") not in ("run", "run_plain"):
+        if failure.get("ck") not in ("run", "run_plain", "run_odd", "run_odd_needs"):
             return False
         if failure.get("what") != "after an internal error the importer did not withdraw":
             return False
@@ -466,7 +506,7 @@ class C13(Prop):
     @staticmethod
     def fam_frames(case, failure):
         return failure.get("what") == "the traceback of the user's own exception shows pyflyby's wrapper frames" \
-            and failure.get("ck") in ("prun", "run", "run_plain", "debug")
+            and failure.get("ck") in ("prun", "run", "run_plain", "run_odd", "run_odd_needs", "debug")
 
     @staticmethod
     def fam_attr_local(case, failure):
@@ -483,7 +523,14 @@ class C13(Prop):
                 and failure.get("got") == []
         return False
 
+    @staticmethod
+    def fam_logging(case, failure):
+        """an exception whose __str__ raises cannot be formatted by the logger"""
+        return failure.get("what") == "pyflyby's logger printed a 'Logging error' traceback" \
+            and "badstr" in failure.get("msgs", [])
+
     families = {"D23_debug_statement_hook_unprotected": fam_d23.__func__,
+                "unprintable_exception_logging_error": fam_logging.__func__,
                 "user_traceback_shows_wrapper_frames": fam_frames.__func__,
                 "dotted_completion_swallows_internal_errors": fam_attr_local.__func__,
                 "run_hook_parse_error_logged_only": fam_run_parse.__func__,
